@@ -28,6 +28,42 @@ CLAIMED = {
    technique="property-based testing: two round-trip oracles built by construction (identity on directive-free text; write-escape of arbitrary line sequences with stored tags)",
    text="Texts over an alphabet of directive and tag look-alikes must pass through unchanged when no line has the directive shape, and any line sequence escaped with one write directive (generated indent/prefix, stored tags whose names occur in the text) must be reproduced line for line, unexecuted and unsubstituted. Expected bytes come from the construction, not from the model.",
    note="Escape domain as in the statement: first line without leading blank, no trailing blanks."),
+ "C02": dict(level="exploration", design="5 C02, 4.4",
+   technique="schedule exploration by owned nondeterminism: exhaustive DFS over all task completion orders (controller on the verif hooks) for all small DAGs + proptest-sampled larger DAGs/schedules + free-running runs; oracle = reference model + history invariant on the hook trace",
+   text="The harness owns which in-flight worker task completes next, so completion orders are enumerated instead of left to the OS: every labelled DAG on <=4 files x requested subsets x stale/absent pre-existing outputs x every completion order (quick: reduced subsets for 4 files), plus sampled larger graphs, pool sizes and real concurrency. On success every output must equal one-at-a-time processing (reference model), commands after a dependency directive must run once, and in the trace the final pass of a file begins only after its dependencies' final passes ended. Exhaustive within the stated scope for the serialised task-order space; exploration beyond.",
+   note="Assumes the serialising controller's order space covers the coordinator's behaviours (argued in DESIGN 4.4); overlapping execution is sampled only."),
+ "C03": dict(level="exploration", design="5 C03, 4.4",
+   technique="schedule exploration (exhaustive DFS over completion orders for all digraphs on <=3 files x alias/duplicate/directory inputs, sampled beyond) with logical deadlock detection, execution-counter markers and trace counts",
+   text="Termination is decided logically at the coordinator's idle poll (no task outstanding, nothing can arrive) rather than by a clock; exactly-once completion is checked by per-command marker files and by counting first/second passes per file in the hook trace, under every completion order of the enumerated scope and for inputs that name the same file several ways.",
+   note="A loop inside a worker task would only be caught by the orchestrator's 60 s isolated double replay (then reported as violation because the statement says the run terminates)."),
+ "C05": dict(level="exploration", design="5 C05, 4.4",
+   technique="schedule exploration: all 530 digraphs with self-loops on <=3 files x requested subsets x all completion orders (DFS), sampled 4-7 files; oracle = cycle reachability computed on the graph, reference model for bystanders, logical deadlock detection",
+   text="For every enumerated digraph, request and completion order: if a required file can reach a cycle the run must return an error (and return at all), every required file that cannot reach a cycle must still be built correctly, and acyclic requests must succeed. Exhaustive in the stated scope, sampled beyond.",
+   note="Same controller assumptions as C02."),
+ "C06": dict(level="exploration", design="5 C06",
+   technique="property-based testing with a same-root differential oracle (verify vs. a fresh build), single-point tampering operators, snapshot-based read-only check",
+   text="Generated successful projects are built, then changed at one point (byte flip/insert/delete at first/middle/last, append, every truncation class, deletion, prefix-extension, option mismatch, source edit); verify must pass iff every output of the verified closure equals what a build with the same options writes now, and must leave every output path untouched (bytes, inode, mtime).",
+   note="The closure is taken from the hook trace of the reference build; builds are deterministic for the command vocabulary."),
+ "C07": dict(level="exploration", design="5 C07",
+   technique="property-based testing over build/clean histories with whole-tree snapshots and execution-counter markers",
+   text="For generated projects incl. erroneous sources and four histories, clean must return Ok, run no command, create/modify nothing, delete only outputs and temp targets (never a .txtpp path), and after a successful build restore the pre-build tree exactly.",
+   note="Inputs are closed under dependency (whole tree or all sources named), as Mode::Clean documents that dependencies are not followed."),
+ "C08": dict(level="fault_enumeration", design="5 C08, 4.5",
+   technique="property-based testing, metamorphic oracle over constructed leftover states (crash points as byte prefixes, invalid UTF-8, stale, empty) of every generated path",
+   text="Leftover states of previous or interrupted runs are enumerated by construction at byte granularity for every generated path; the build (normal and --needed) must give the verdict and bytes of a build from the tree without generated files, and building twice must equal building once. Found two genuine defects (non-UTF-8 leftovers), both fixed.",
+   note="Interrupted runs are represented by their leftover regular files; kernel-level partial states are out of scope."),
+ "C09": dict(level="exploration", design="5 C09",
+   technique="property-based testing over edit/tamper/build/needed/verify histories; same-root differential oracle vs. a normal build; inode+sentinel-mtime no-rewrite check",
+   text="Every --needed (and build) run in a generated history must have the verdict and bytes of a normal build of the current sources; files that already had the correct content must keep inode and mtime (outputs under --needed/verify, temp files in every non-clean mode).",
+   note="Projects where two directives write the same temp target are excluded."),
+ "C10": dict(level="exploration", design="5 C10",
+   technique="property-based testing: whole-tree snapshot diff (bytes, inode, mtime) against the allowed write set, over modes x inputs x decoys",
+   text="Across all four modes, successful and failing projects, decoy and near-miss file names, the set of created/deleted/modified/touched paths must be contained in the outputs and temp targets of the sources the run may process; verify must not touch outputs; clean must create nothing.",
+   note="The may-process set comes from the input-resolution model that C11 validates."),
+ "C11": dict(level="exploration", design="5 C11",
+   technique="property-based testing against an independent input-resolution and naming model; created-output set and per-source execution counters",
+   text="Generated trees with the three source-name shapes, look-alikes and dependencies are processed with generated input lists (directories, either name, ./ ../ absolute, duplicates, missing, plain files) and recursion on/off, with base directory != cwd; the created outputs and per-source command counters must match the model's processed set exactly, missing targets must fail, clean must remove exactly the named sources' outputs.",
+   note="No symlinks; relative base directories are exercised by C17's child processes."),
 }
 
 NOT_YET = "check not built yet in this revision of /verif (see DESIGN.md section 5 for the planned generated-input check); not claimed until its machinery exists"
